@@ -820,7 +820,7 @@ def Exploitability (u0 : Nat) (u1 : Nat) (u2 : Nat) (u3 : Nat) (u4 : Nat) (u5 : 
 /-- roundup  (cvss31.go) -/
 def roundup (x : Nat) : Nat :=
   F64.flet (F64.roundToEven (F64.mul x (0x40f86a0000000000 : Nat))) fun bx =>
-  cond (Nat.beq (Nat.mod (F64.truncAbs bx) (10000 : Nat)) (0 : Nat))
+  cond (F64.intRemZero bx (10000 : Nat))
     ((F64.div bx (0x40f86a0000000000 : Nat)))
     ((F64.div (F64.add (F64.floor (F64.div bx (0x40c3880000000000 : Nat))) (0x3ff0000000000000 : Nat)) (0x4024000000000000 : Nat)))
 
